@@ -281,4 +281,234 @@ theorem sgConstruct_spec (m : MemGeff) (names : List String) (h : SgDomain m nam
         rw [entry_nomissing c k hc.2 hvl]
 
 
+
+/-! ### spatial-graph write (unsquish) -/
+
+/-- documented domain of a spatial-graph graph written with `axis_names` -/
+structure SgGraphDomain (g : SgGraph) (names : List String) : Prop where
+  nodup : g.nodes.Nodup
+  nonempty : g.nodes ≠ []
+  endpoints : ∀ e ∈ g.edges, e.1 ∈ g.nodes ∧ e.2 ∈ g.nodes
+  simple : g.edges.Pairwise (fun a b => sameEdge g.directed a b = false)
+  ndims : g.ndims = names.length
+  axes : names ≠ []
+  axesNodup : names.Nodup
+  posLen : g.position.length = g.nodes.length
+  posRows : ∀ r ∈ g.position, r.length = g.ndims
+  posDtype : sgDtypeOk g.posDtype = true
+  nodeNames : (g.nodeAttrs.map (·.1)).Nodup
+  disjoint : ∀ p ∈ g.nodeAttrs, p.1 ∉ names
+  nodeCols : ∀ p ∈ g.nodeAttrs, p.2.WF g.nodes.length ∧ sgColOk p.2 = true ∧ p.2.missing = none
+  edgeNames : (g.edgeAttrs.map (·.1)).Nodup
+  edgeCols : ∀ p ∈ g.edgeAttrs, p.2.WF g.edges.length ∧ sgColOk p.2 = true ∧ p.2.missing = none
+
+def axisColOf (g : SgGraph) (k : Nat) : Col :=
+  { dtype := g.posDtype, varlen := false, rows := g.position.map (fun r => (([], [r.getD k default]) : Row)), missing := none }
+
+theorem axisColumn_ok (g : SgGraph) (name : String) (k : Nat) (hk : ∀ r ∈ g.position, k < r.length) :
+    axisColumn g name k = .ok (name, axisColOf g k) := by
+  unfold axisColumn
+  have : mapE (cellRow k) g.position = .ok (g.position.map (fun r => (([], [r.getD k default]) : Row))) := by
+    apply mapE_ok_map
+    intro r hr
+    have := hk r hr
+    simp [cellRow, List.getElem?_eq_getElem this, List.getD_eq_getElem?_getD]
+  simp only [this, axisColOf]
+
+theorem filter_disjoint (props : List (String × Col)) (names : List String) (h : ∀ p ∈ props, p.1 ∉ names) :
+    props.filter (fun p => !names.contains p.1) = props := by
+  apply List.filter_eq_self.2
+  intro p hp
+  have := h p hp
+  simpa using this
+
+theorem lookup_append' {β : Type} (l1 l2 : List (String × β)) (k : String) :
+    (l1 ++ l2).lookup k = match l1.lookup k with
+      | some v => some v
+      | none => l2.lookup k := by
+  induction l1 with
+  | nil => rfl
+  | cons p t ih =>
+    obtain ⟨k', v'⟩ := p
+    simp only [List.cons_append, lookup_cons_ite]
+    by_cases hk : k = k'
+    · simp [hk]
+    · simp [hk, ih]
+
+/-- lookup in `names.zip (range n)` mapped to columns: the column of the name's index -/
+theorem lookup_axisCols (g : SgGraph) (names : List String) (hnd : names.Nodup) (name : String) (off : Nat) :
+    ((names.zip (List.range' off names.length)).map (fun p => (p.1, axisColOf g p.2))).lookup name =
+      (names.findIdx? (fun x => x = name)).map (fun a => axisColOf g (off + a)) := by
+  induction names generalizing off with
+  | nil => rfl
+  | cons a t ih =>
+    have hnd' := List.nodup_cons.1 hnd
+    simp only [List.length_cons, List.range'_succ, List.zip_cons_cons, List.map_cons, lookup_cons_ite,
+      List.findIdx?_cons]
+    by_cases h : a = name
+    · subst h; simp
+    · have h' : ¬ name = a := fun e => h e.symm
+      simp only [h', if_false, h, decide_false, Bool.false_eq_true]
+      rw [ih hnd'.2 (off + 1)]
+      cases t.findIdx? (fun x => decide (x = name)) with
+      | none => rfl
+      | some k => simp; congr 1; omega
+
+
+abbrev sgMemOf (g : SgGraph) (axisCols : List (String × Col)) : MemGeff :=
+  { directed := g.directed, nodeIds := g.nodes, edgeIds := g.edges,
+    nodeProps := g.nodeAttrs ++ axisCols, edgeProps := g.edgeAttrs }
+
+theorem sgWrite_spec (g : SgGraph) (names : List String) (h : SgGraphDomain g names) :
+    ∃ m, sgWrite g names = .ok m ∧ SgDomain m names ∧ memObs m = sgObs names g := by
+  have hguard : ¬ (g.ndims ≠ names.length ∧ (!g.nodes.isEmpty) = true) := fun hc => hc.1 h.ndims
+  have hrowlen : ∀ k, k < names.length → ∀ r ∈ g.position, k < r.length := by
+    intro k hk r hr; rw [h.posRows r hr, h.ndims]; exact hk
+  obtain ⟨axisCols, haxdef⟩ : ∃ t, t = (names.zip (List.range' 0 names.length)).map (fun p => (p.1, axisColOf g p.2)) := ⟨_, rfl⟩
+  have hmap : mapE (fun (p : String × Nat) => axisColumn g p.1 p.2) (enumNames names) = .ok axisCols := by
+    rw [haxdef, enumNames, List.range_eq_range']
+    apply mapE_ok_map
+    intro p hp
+    have hk : p.2 < names.length := by
+      have := (List.of_mem_zip hp).2
+      simpa using (List.mem_range'_1.1 this).2
+    exact axisColumn_ok g p.1 p.2 (hrowlen p.2 hk)
+  have hfilter := filter_disjoint g.nodeAttrs names h.disjoint
+  have hkeys : axisCols.map (·.1) = names := by
+    rw [haxdef, List.map_map]
+    have : ((fun p : String × Col => p.1) ∘ fun p : String × Nat => (p.1, axisColOf g p.2)) = (fun p => p.1) := rfl
+    rw [this, List.map_fst_zip (by simp)]
+  have hlookAx : ∀ name, axisCols.lookup name = (names.findIdx? (fun x => x = name)).map (fun a => axisColOf g a) := by
+    intro name
+    rw [haxdef, lookup_axisCols g names h.axesNodup name 0]
+    simp
+  have hattrNone : ∀ name ∈ names, g.nodeAttrs.lookup name = none := by
+    intro name hn
+    apply lookup_none_of_not_mem
+    intro hm
+    obtain ⟨p, hp, rfl⟩ := List.mem_map.1 hm
+    exact h.disjoint p hp hn
+  have hlook : ∀ name, (g.nodeAttrs ++ axisCols).lookup name =
+      match names.findIdx? (fun x => x = name) with
+      | some a => some (axisColOf g a)
+      | none => g.nodeAttrs.lookup name := by
+    intro name
+    rw [lookup_append', hlookAx]
+    cases ha : names.findIdx? (fun x => decide (x = name)) with
+    | some a =>
+      obtain ⟨halt, hpa⟩ := findIdx?_getElem _ _ a ha
+      have hnm : names[a] = name := by simpa using hpa
+      have hmem : name ∈ names := by rw [← hnm]; exact List.getElem_mem halt
+      rw [hattrNone name hmem]; rfl
+    | none => cases g.nodeAttrs.lookup name <;> rfl
+  have hvalid : MemValid (sgMemOf g axisCols) :=
+    { nodup := h.nodup, endpoints := h.endpoints, simple := h.simple,
+      nodeNames := by
+        simp only [sgMemOf, List.map_append, hkeys]
+        apply List.nodup_append.2
+        refine ⟨h.nodeNames, h.axesNodup, ?_⟩
+        intro a ha b hb hab
+        obtain ⟨p, hp, rfl⟩ := List.mem_map.1 ha
+        exact h.disjoint p hp (hab ▸ hb)
+      edgeNames := h.edgeNames,
+      nodeCols := by
+        intro p hp
+        rcases List.mem_append.1 hp with hp | hp
+        · exact (h.nodeCols p hp).1
+        · rw [haxdef] at hp
+          obtain ⟨q, _, rfl⟩ := List.mem_map.1 hp
+          exact ⟨by simp [axisColOf, h.posLen], by intro ms hms; simp [axisColOf] at hms⟩
+      edgeCols := fun p hp => (h.edgeCols p hp).1 }
+  refine ⟨sgMemOf g axisCols, by simp only [sgWrite, hguard, if_false, hmap, hfilter, sgMemOf], ?_, ?_⟩
+  · exact
+      { valid := hvalid, nonempty := h.nonempty, axes := h.axes,
+        axisCols := ⟨g.posDtype, h.posDtype, by
+          intro a ha
+          obtain ⟨k, hk⟩ : ∃ k, names.findIdx? (fun x => decide (x = a)) = some k := by
+            cases hk : names.findIdx? (fun x => decide (x = a)) with
+            | some k => exact ⟨k, rfl⟩
+            | none => have := (findIdx?_none_iff _ _).1 hk a ha; simp at this
+          refine ⟨axisColOf g k, by simp only [hlook, hk], rfl, rfl, rfl, ?_⟩
+          intro r hr
+          simp only [axisColOf, List.mem_map] at hr
+          obtain ⟨r', _, rfl⟩ := hr
+          exact ⟨_, rfl⟩⟩,
+        otherNode := by
+          intro p hp hnot
+          rcases List.mem_append.1 hp with hp | hp
+          · exact (h.nodeCols p hp).2
+          · exact absurd (by rw [← hkeys]; exact List.mem_map.2 ⟨p, hp, rfl⟩) hnot
+        edgeCols := fun p hp => (h.edgeCols p hp).2 }
+  · simp only [sgObs, memObs, Obs.mk.injEq]
+    refine ⟨trivial, ?_, ?_, ?_, ?_⟩
+    · funext i
+      simp only [SgGraph.hasNode]
+      rw [Bool.eq_iff_iff]
+      simp [List.any_eq_true]
+    · funext e; rfl
+    · funext i name
+      simp only [SgGraph.nodeAttr, specNodeAttr]
+      cases hk : g.nodes.findIdx? (fun x => decide (x = i)) with
+      | none => rfl
+      | some k =>
+        have hklt := findIdx?_lt _ _ k hk
+        simp only [memAttr, hlook]
+        cases ha : names.findIdx? (fun x => decide (x = name)) with
+        | some a =>
+          have halt := findIdx?_lt _ _ a ha
+          simp only []
+          rw [entry_nomissing _ _ rfl rfl]
+          simp only [axisColOf, List.getElem?_map]
+          cases hr : g.position[k]? with
+          | none => rfl
+          | some r =>
+            have hrm : r ∈ g.position := List.mem_of_getElem? hr
+            have hal : a < r.length := hrowlen a halt r hrm
+            simp [rowToPy, List.getElem?_eq_getElem hal, List.getD_eq_getElem?_getD]
+        | none =>
+          simp only []
+          cases hl : g.nodeAttrs.lookup name with
+          | none => rfl
+          | some c =>
+            have hc := h.nodeCols (name, c) (lookup_mem _ _ _ hl)
+            have hvl : c.varlen = false := by
+              have := hc.2.1
+              simp only [sgColOk, Bool.and_eq_true, Bool.not_eq_true'] at this
+              exact this.1.2
+            simp only []
+            rw [entry_nomissing c k hc.2.2 hvl]
+    · funext e name
+      simp only [SgGraph.edgeAttr, specEdgeAttr]
+      cases hk : g.edges.findIdx? (fun x => sameEdge g.directed x e) with
+      | none => rfl
+      | some k =>
+        simp only [memAttr]
+        cases hl : g.edgeAttrs.lookup name with
+        | none => rfl
+        | some c =>
+          have hc := h.edgeCols (name, c) (lookup_mem _ _ _ hl)
+          have hvl : c.varlen = false := by
+            have := hc.2.1
+            simp only [sgColOk, Bool.and_eq_true, Bool.not_eq_true'] at this
+            exact this.1.2
+          simp only []
+          rw [entry_nomissing c k hc.2.2 hvl]
+
+
+
+/-- the spatial-graph domain does not depend on the order of the properties -/
+theorem sgDomain_of_equiv (m m' : MemGeff) (names : List String) (he : MemEquiv m m') (h : SgDomain m names) :
+    SgDomain m' names :=
+  { valid := memEquiv_valid m m' he h.valid
+    nonempty := by rw [he.nodeIds]; exact h.nonempty
+    axes := h.axes
+    axisCols := by
+      obtain ⟨pd, hpd, hax⟩ := h.axisCols
+      refine ⟨pd, hpd, ?_⟩
+      intro a ha
+      obtain ⟨c, hc, rest⟩ := hax a ha
+      exact ⟨c, by rw [perm_lookup _ _ he.nodeProps h.valid.nodeNames]; exact hc, rest⟩
+    otherNode := fun p hp hn => h.otherNode p (he.nodeProps.mem_iff.1 hp) hn
+    edgeCols := fun p hp => h.edgeCols p (he.edgeProps.mem_iff.1 hp) }
+
 end GeffProps.C03
